@@ -1,12 +1,12 @@
 """C01 — Obfuscated builds behave exactly like regular builds."""
-import hashlib, json, os, shutil
+import hashlib, json, os, re, shutil
 import vlib, e2e, corpus
 from rename_common import *
 from names_common import Oracle, is_exported
 
 THEOREMS = ["C01_rename_preserves_resolution", "C01_rename_no_capture", "C01_interfaces_preserved", "C01_entry_points_kept",
             "C01_exported_methods_kept", "C01_tests_kept", "C01_plain_packages_kept", "C01_linkname_function_agrees",
-            "C01_linkname_unknown_unchanged"]
+            "C01_linkname_unknown_unchanged", "C01_asm_passthrough", "C01_asm_local_reference", "C01_asm_go_agree"]
 RUN_ARGS = [[], ["a", "b"], ["fail"], ["panic"]]
 XFLAGS = ["-ldflags=-X=main.version=v1.2.3-injected -X=example.com/corp2/internal/secret.Channel=beta-channel-injected"]
 
@@ -57,6 +57,81 @@ def linkname_cases(r, n):
                 res_ = "NotDependency"
             lookup.append("(%s, %s)" % (vlib.nlist(p.encode()), res_))
         cases.append((req, cur, known[cur]["to_obf"], local, new, "[" + ";".join(lookup) + "]", seed))
+    return cases
+
+
+
+def intrinsics_of_repo():
+    """(path, name) pairs of compilerIntrinsics in /repo's go_std_tables.go (for the generator only; the model uses the regenerated Gen/StdTables.v)"""
+    try:
+        src = open(os.path.join(vlib.REPO, "go_std_tables.go")).read()
+        body = src[src.index("var compilerIntrinsics"):]
+        body = body[:body.index("\n}\n")]
+    except (OSError, ValueError):
+        return []
+    out, cur = [], None
+    for line in body.split("\n"):
+        m = re.match(r'\s*"([^"]+)":\s*\{', line)
+        if m:
+            cur = m.group(1)
+            continue
+        m = re.match(r'\s*"([^"]+)":\s*true', line)
+        if m and cur:
+            out.append((cur, m.group(1)))
+    return out
+
+
+def asm_cases(r, n):
+    """assembly-like texts for replaceAsmNames: local and qualified references, multi-dot package paths, names next to
+    punctuation, non-ASCII letters, stray middle dots; qualified packages are always dependencies (otherwise listPackage panics)"""
+    intr = intrinsics_of_repo()
+    names = ["add", "Add", "privateAdd", "x1", "_under", "tbl", "memmove", "Ctz64", "main", "init", "A", "z9_"]
+    cases = []
+    for _ in range(n):
+        seed = bytes(r.randrange(256) for _ in range(8))
+        deps_all = [("example.com/asm/lib", True, False), ("example.com/asm/plain", False, False), ("test/with.many.dots/main/imported", True, False),
+                    ("runtime", r.random() < 0.5, True), ("internal/cpu", r.random() < 0.5, True), ("internal/runtime/atomic", True, True), ("math/bits", True, True)]
+        cur = ("example.com/asm/cur", "cur", r.random() < 0.8)
+        pk = [{"path": cur[0], "name": cur[1], "to_obf": cur[2], "standard": False, "aid": "11" * 15, "imports": [d[0] for d in deps_all]}]
+        for k, (p, obf, std) in enumerate(deps_all):
+            pk.append({"path": p, "name": p.split("/")[-1], "to_obf": obf, "standard": std, "aid": "%02x" % (k + 2) * 15, "imports": []})
+        def ref():
+            k = r.random()
+            nm = r.choice(names)
+            if k < 0.4:
+                return "\u00b7" + nm
+            if k < 0.5:
+                return cur[1] + "\u00b7" + nm
+            if k < 0.6 and intr:
+                p, nm2 = r.choice(intr)
+                if p in [d[0] for d in deps_all]:
+                    return p.replace("/", "\u2215").replace(".", "\u00b7") + "\u00b7" + nm2
+            d = r.choice(deps_all)
+            return d[0].replace("/", "\u2215").replace(".", "\u00b7") + "\u00b7" + nm
+        lines = []
+        for _ in range(r.randint(1, 6)):
+            k = r.random()
+            if k < 0.3:
+                lines.append("TEXT %s(SB),$0-24" % ref())
+            elif k < 0.5:
+                lines.append("\t%s %s(SB)" % (r.choice(["CALL", "JMP"]), ref()))
+            elif k < 0.6:
+                lines.append("DATA %s<>+0(SB)/8, $%d" % (ref(), r.randint(0, 9)))
+            elif k < 0.7:
+                lines.append("// comment a.b/c %s, then %s." % (ref(), ref()))
+            elif k < 0.8:
+                lines.append("\tMOVQ $0, ret+16(FP)")
+            elif k < 0.85:
+                # a non-ASCII name is scanned with unicode.IsLetter; hashing it is C16's subject, so it is referenced only where names are kept
+                lines.append("\tLEAQ \u00b7h\u00e9llo\u4e16(SB), AX // \u00e9t\u00e9" if not cur[2] else "\tLEAQ \u00b7hello9(SB), AX // \u00e9t\u00e9 \u4e16")
+            elif k < 0.9:
+                lines.append(r.choice(["\u00b7", "\u00b7\u00b7x(SB)", "x \u00b7 y", "(\u00b7f+8)(SB)", "$\u00b7g<>(SB)", "\u00b7a\u2215b(SB)"]))
+            else:
+                lines.append("#include \"textflag.h\"")
+        text = "\n".join(lines) + ("\n" if r.random() < 0.8 else "")
+        req = {"op": "asmnames", "seed": seed.hex(), "gogarble": "*", "binary_id": "07" * 15, "pkgs": pk, "cur": cur[0], "s": text}
+        table = "[" + ";".join("(%s, Found %s)" % (vlib.nlist(p["path"].encode()), vlib.coq_bool(p["to_obf"])) for p in pk) + "]"
+        cases.append((req, seed, cur, table, text))
     return cases
 
 
@@ -119,6 +194,34 @@ def run(res, tier, seed, replay):
     mism += [("linkname", lcases[i][3], lcases[i][4], outs[i]) for i in badl]
     res.cov["evaluations"] += len(llits)
     res.cov["linkname_cases"] = len(llits)
+
+
+    # ---------------- 2b. the assembly rewriter against the model
+    import unicodedata
+    acases = asm_cases(r, 60 if tier == "quick" else 500)
+    aouts = orc.batch([c[0] for c in acases])
+    alits, apanics = [], 0
+    for (req, sd, cur, table, text), o in zip(acases, aouts):
+        if "panic" in o:
+            apanics += 1
+            continue
+        cps = sorted(set(ord(ch) for ch in text + o["out"]))
+        letters = [c for c in cps if unicodedata.category(chr(c)).startswith("L")]
+        digits = [c for c in cps if unicodedata.category(chr(c)) == "Nd"]
+        runes = lambda t: "[" + ";".join(str(ord(ch)) for ch in t) + "]"
+        alits.append("(%s, %s, %s, %s, %s, %s, %s, %s, %s)" % (vlib.nlist(sd), vlib.nlist(cur[0].encode()), vlib.nlist(cur[1].encode()), vlib.coq_bool(cur[2]), table,
+                                                           "[" + ";".join(map(str, letters)) + "]", "[" + ";".join(map(str, digits)) + "]", runes(text), runes(o["out"])))
+    aheader = lheader.replace("Model.Rename Model.Linkname.", "Model.Rename Model.Linkname Model.Asm.") + (
+        "Definition lkp (sd : bytes) (t : list (str * lookup_result)) (p : str) : bool * str * str := "
+        "(match lk t p with Found b => b | _ => false end, ip sd t p, p).\n"
+        "Definition memn (c : N) (l : list N) : bool := existsb (N.eqb c) l.\n")
+    acheck = ("(fun c => match c with (sd, cur, cname, cobf, t, letters, digits, text, out) => "
+              "negb (beq (replace_asm_names (fun x => memn x letters) (fun x => memn x digits) (lkp sd t) (hn sd) Gen.StdTables.intrinsics cname cur cobf (ip sd t cur) text) out) end)")
+    bada = vlib.coq_eval_cases("c01c", aheader, "bytes * str * str * bool * list (str * lookup_result) * list N * list N * str * str", alits, acheck, chunk=10)
+    mism += [("asm", acases[i][4], aouts[i].get("out")) for i in bada]
+    res.cov["evaluations"] += len(alits)
+    res.cov["asm_cases"] = len(alits)
+    res.cov["asm_cases_skipped_listPackage_panic"] = apanics
 
     # ---------------- 3. differential runs: plain vs garbled, every argv, several configurations
     def diff_runs(tag, plain_bin, garbled_bin, argvs, ctx):
